@@ -98,18 +98,18 @@ def mexec (s : Step) : M Unit := modify fun d =>
                            eqT := d.c.eqT || (hit && d.eqBug), nEqHit := d.c.nEqHit + (if hit then 1 else 0) } }
 
 def isSysPc : PC → Bool
-  | .a2 .. | .b3 .. | .r3 .. | .s2 .. | .b1 .. | .r1 .. => true
+  | .a2 .. | .b3 .. | .r3 .. | .s2 .. | .b1 .. | .r1 .. | .l2 .. | .l4 .. => true
   | _ => false
 
 /-- advance the model to its next timer system call (or to the end of the operation) -/
 def toSyscall : M Unit := do
-  for _ in [0:8] do
+  for _ in [0:10] do
     let d ← get
     if d.c.σ.pc == .idle || isSysPc d.c.σ.pc then return
     mexec .step
 
 def finishOp : M Unit := do
-  for _ in [0:6] do mexec .step
+  for _ in [0:9] do mexec .step
 
 def pushReal (s : String) : M Unit := modify fun d => { d with c := { d.c with real := d.c.real.push s } }
 
@@ -215,7 +215,8 @@ def judge : M Unit := do
   if d.trace then
     for e in c.σ.log.reverse do IO.println s!"# {repr e}"
   if nbad == 0 then
-    IO.println s!"ok {c.name} eqhits={c.nEqHit} defer={c.defer} crit={c.crit} fired={c.fired.size}"
+    let mdef := (c.σ.log.filter (fun e => match e with | .deferred _ => true | _ => false)).length
+    IO.println s!"ok {c.name} eqhits={c.nEqHit} defer={c.defer} crit={c.crit} fired={c.fired.size} mdefer={mdef}"
     modify fun d => { d with nOk := d.nOk + 1 }
   else modify fun d => { d with nBad := d.nBad + 1 }
 
